@@ -378,12 +378,89 @@ def gen_base(rnd, small: bool = False) -> Dict[str, Any]:
     base = {"doc": doc, "files": data_files, "replicated": replicated,
             "ids": sorted(cid(c) for c in comps), "var_layers": {k: v for k, v in var_layer.items()},
             "var_uses": {k: sorted(set(v)) for k, v in uses.items()}, "arrays": arrays,
-            "platform": None, "spelled": []}
+            "platform": None, "spelled": [], "manifest": {}, "hazard": []}
+    name_hazard(base)
     # the literal twin: same document with every reference spelled out; ground truth for edges / targets
     base["lit"] = copy.deepcopy(doc)
     if r.random() < 0.75:
         respell(r, base)
     return base
+
+
+# --------------------------------------------------------------------------- names that look like folders
+# A reference whose first part is a special folder (input, data, bin, conf), a top-level folder of the manifest or
+# the name of an application dependency is a DIRECT reference (no producer component).  Those names are reserved
+# in exactly that spelling; `Data`, `INPUT`, `Bin`, `conF`, `MyApp` (dependency myapp.application), `Mydata`
+# (manifest folder mydata) are ordinary, legal component names and a reference to them - relative or absolute -
+# is a component reference.
+HAZARD_SPECIAL = ["Data", "INPUT", "Bin", "Conf", "DATA", "Input", "BIN", "conF"]
+HAZARD_APPDEP = ["MyApp", "MYAPP", "myApp"]          # application dependency "myapp.application" -> folder myapp
+HAZARD_MANIFEST = ["Mydata", "MYDATA", "myData"]      # manifest top-level folder "mydata"
+
+
+def rename_component(base, index: int, new: str) -> None:
+    """rename component #index of base['doc'] (still fully spelled out) and every reference to it"""
+    doc = base["doc"]
+    comp = doc["components"][index]
+    st, old = comp.get("stage", 0), comp["name"]
+    for c in doc["components"]:
+        refs = c.get("references", [])
+        for k, ref in enumerate(list(refs)):
+            if ref_target(ref, c.get("stage", 0)) != (st, old):
+                continue
+            stg, _, f, method = _REF.match(ref).groups()
+            nref = ("stage%s." % stg if stg is not None else "") + new + (f or "") + ":" + method
+            refs[k] = nref
+            c["command"]["arguments"] = replace_token(c["command"].get("arguments", ""), ref, nref)
+    comp["name"] = new
+    oid, nid = "stage%d.%s" % (st, old), "stage%d.%s" % (st, new)
+    base["ids"] = sorted(nid if x == oid else x for x in base["ids"])
+    for a in base.get("arrays", []):
+        if a["comp"] == oid:
+            a["comp"] = nid
+
+
+def name_hazard(base) -> None:
+    """In 2 documents out of 5 one or two components (producers first) are renamed to a name that equals a special
+    folder / an application dependency / a manifest folder up to case; the lower-case folder is declared (application
+    dependency, manifest handed to both load APIs) half of the time.  Deterministic in the document itself (does not
+    consume the generator's random stream)."""
+    import json
+    import random
+    import zlib
+    doc = base["doc"]
+    hr = random.Random(zlib.crc32(json.dumps(doc, sort_keys=True, default=str).encode()))
+    if hr.random() >= 0.4:
+        return
+    comps = doc["components"]
+    producers = sorted({ids for ids, _ in edges_of(doc)})
+    order = [i for i, c in enumerate(comps) if cid(c) in producers]
+    rest = [i for i in range(len(comps)) if i not in order]
+    hr.shuffle(order)
+    hr.shuffle(rest)
+    used_kinds = set()
+    for i in (order + rest)[: hr.choice([1, 1, 2])]:
+        kind = hr.choice(["special", "special", "special", "appdep", "manifest"])
+        if kind in used_kinds and kind != "special":
+            kind = "special"
+        used_kinds.add(kind)
+        pool = {"special": HAZARD_SPECIAL, "appdep": HAZARD_APPDEP, "manifest": HAZARD_MANIFEST}[kind]
+        st = comps[i].get("stage", 0)
+        free = [n for n in pool if not any(c.get("stage", 0) == st and c["name"] == n for c in comps)]
+        if not free:
+            continue
+        new = hr.choice(free)
+        old = cid(comps[i])
+        rename_component(base, i, new)
+        declared = False
+        if kind == "appdep" and hr.random() < 0.5:
+            doc["application-dependencies"] = {"default": ["myapp.application"]}
+            declared = True
+        if kind == "manifest" and hr.random() < 0.5:
+            base["manifest"] = {"mydata": "extra/mydata"}
+            base["files"]["extra/mydata/readme.txt"] = "x\n"
+            declared = True
+        base["hazard"].append({"comp": cid(comps[i]), "was": old, "kind": kind, "declared": declared})
 
 
 # --------------------------------------------------------------------------- references spelled through variables
@@ -777,10 +854,12 @@ def mutants(rnd, base: Dict[str, Any], all_values: bool = True) -> List[Dict[str
     # -- add an edge that closes a cycle (ancestor consumes from descendant), and self references
     desc = descendants(lit)
 
-    def closing_edge(i, did, method, in_args, through_variable):
+    def closing_edge(i, did, method, in_args, through_variable, relative=False):
         d = copy.deepcopy(doc)
         cc = d["components"][i]
         form = None
+        if relative:
+            did = did.split(".", 1)[1]           # same stage: the producer may be named without its stage
         if through_variable:
             stg, name = _REF.match(did + ":ref").groups()[:2]
             form, ref, vs = spell(rnd, stg, name, None, method, "back_", allow_method=False)
@@ -801,11 +880,18 @@ def mutants(rnd, base: Dict[str, Any], all_values: bool = True) -> List[Dict[str
                 d, _ = closing_edge(i, did, method, in_args, False)
                 if d is not None:
                     add("back-edge", "cycle", d, [cid(c), did], method=method)
+            if did.startswith("stage%d." % c.get("stage", 0)):
+                method, in_args = rnd.choice([("ref", True), ("copy", False), ("output", True)])
+                d, _ = closing_edge(i, did, method, in_args, False, relative=True)
+                if d is not None:
+                    add("back-edge", "cycle", d, [cid(c), did], method=method, relative=True)
             method, in_args = rnd.choice([("ref", True), ("copy", False), ("output", True), ("link", False)])
             d, form = closing_edge(i, did, method, in_args, True)
             add("back-edge-through-variable", "cycle", d, [cid(c), did], method=method, spell=form)
         d, _ = closing_edge(i, cid(c), "ref", True, False)
         add("self-reference", "cycle", d, [cid(c)])
+        d, _ = closing_edge(i, cid(c), "ref", True, False, relative=True)
+        add("self-reference", "cycle", d, [cid(c)], relative=True)
         method, in_args = rnd.choice([("ref", True), ("ref", True), ("copy", False)])
         d, form = closing_edge(i, cid(c), method, in_args, True)
         add("self-reference-through-variable", "cycle", d, [cid(c)], spell=form)
